@@ -282,7 +282,17 @@ func main() {
 			res.Write(f.Out)
 			return
 		}
-		runOne(rp.Case.Scenario, rp.Case.Seed)
+		// a scenario that releases a held forwarder leaves one random choice to the Go runtime (which
+		// ready case the forwarder's select takes): re-execute it until it shows again, up to 16 times
+		tries := 1
+		for _, st := range rp.Case.Scenario.Steps {
+			if st.Op == "unpark" {
+				tries = 16
+			}
+		}
+		for i := 0; i < tries && len(res.Violations) == 0 && len(res.Disagreements) == 0; i++ {
+			runOne(rp.Case.Scenario, rp.Case.Seed)
+		}
 		res.Write(f.Out)
 		return
 	}
